@@ -673,7 +673,9 @@ async def run_pair(corr: Corr, ctx, rng, label: str, old_spec, new_spec, must: l
     case["sequence"] = "in-place" if in_place else "atomic" if atomic else "other"
     corr.count("sequence:" + case["sequence"])
     if ctx.model_ok:
-        model_lines.append((f"ops {hexb(new_bytes)}", "ops", " ".join(ops), case))
+        # the model has two operation sequences: today's in-place one (refuted: not_crash_safe) and temp-file + rename
+        # (proved safe: atomic_if_renamed).  An implementation that performs the latter is compared with the latter.
+        model_lines.append((f"{'opsatomic' if atomic else 'ops'} {hexb(new_bytes)}", "ops", " ".join(ops), case))
         if old_bytes is not None and len(new_bytes) <= 3000:     # the model enumerates every byte prefix: small texts only
             dg = " ".join(digest(f) for _, f in states)
             if in_place or not atomic:
